@@ -30,7 +30,7 @@ def fieldPure (fac : Factory) (d : MesgDef) (fd : FieldDef) (b : List Nat) : Res
     | .ok v => pure v
     | .err => .err .other
     | .panic => .panic : Res Value)
-  let v := if rs.1 ≠ bt then convertBytesToValue (sliceUint8Of v) d.arch bt else v
+  let v := if rs.1 ≠ bt then undersizedValue arrayF (sliceUint8Of v) d.arch bt else v
   pure ⟨fd.num, bt, info.known, isBoolF, arrayF, v, false⟩
 
 /-- what a decoded field does to the decoder state: active timestamp, accumulator -/
